@@ -246,6 +246,14 @@ static void *client_thread(void *arg) {
         if (sock_out) fflush(sock_out);
 
         int32_t exit_code = 0;
+        if (result == VM_OK) {
+            /* main's return value is the exit status, as in `nano_virt --run`
+             * (masked like a process exit status so that it survives the wire) */
+            NanoValue main_result = vm_get_result(&vm);
+            if (main_result.tag == TAG_INT) {
+                exit_code = (int32_t)(main_result.as.i64 & 0xFF);
+            }
+        }
         if (result != VM_OK) {
             exit_code = 1;
             /* Format error like standalone: "Runtime error: <type>\n  <detail>" */
